@@ -59,11 +59,15 @@ let case (line : string) : string =
       List.iter (fun e ->
         (match e with
          | EOpen (sl, fd) -> add (Printf.sprintf "o%d=%d" (int_of_nat sl) (int_of_z fd))
+         | ECloseFd fd -> add (Printf.sprintf "x%d" (int_of_z fd))
          | ESkip -> add "-"
-         | EDone -> add "."
-         | ERet c -> add ("r" ^ string_of_z c)
-         | EInit (h, c, fd) -> add (Printf.sprintf "i%d=%d@%d" (int_of_nat h) (int_of_z c) (int_of_z fd))
-         | EAct b -> add (if b then "a1" else "a0")
+         | EInit (h, k, c, fd) ->
+             add (Printf.sprintf "%s%d=%d@%d" (match k with KPoll -> "i" | KRaw -> "j") (int_of_nat h) (int_of_z c) (int_of_z fd))
+         | EStart (h, m, c) -> add (Printf.sprintf "s%d,%d=%d" (int_of_nat h) (uv_of_mask m) (int_of_z c))
+         | EStop (h, m) -> add (Printf.sprintf "t%d,%d" (int_of_nat h) (uv_of_mask m))
+         | EClose h -> add (Printf.sprintf "z%d" (int_of_nat h))
+         | EFeed h -> add (Printf.sprintf "f%d" (int_of_nat h))
+         | EAct (h, b) -> add (Printf.sprintf "a%d=%d" (int_of_nat h) (if b then 1 else 0))
          | ECb (h, st, ev, _, _, _, _, _, _) ->
              add (Printf.sprintf "c%d,%d,%d" (int_of_nat h) (int_of_z st) (uv_of_mask ev))
          | ERawCb (h, ev) -> add (Printf.sprintf "w%d,%d" (int_of_nat h) (poll_of_mask ev))
